@@ -152,3 +152,11 @@ def traced():
     except Exception:
         return contextlib.nullcontext()
     return contextlib.nullcontext() if is_tracing() else ResumedTracing()
+
+
+def concrete(x):
+    """force a solver variable to a concrete Python value under tracing (forking on its value); identity natively"""
+    if MODE not in ("check", "reach"):
+        return x
+    from crosshair.core import realize
+    return realize(x)
